@@ -7,7 +7,7 @@ EXTENDS ServeEngine, Json
 B == [qr |-> FALSE, opcode |-> 0, qd |-> 1, an |-> 0, rd |-> TRUE, ad |-> FALSE, cd |-> FALSE,
       qtype |-> "A", qclass |-> "IN", opt |-> "ok", do |-> FALSE, size |-> 1232,
       cookie |-> "none", nsid |-> FALSE, keepalive |-> FALSE, ecs |-> "none",
-      pad |-> FALSE, unk |-> FALSE, proto |-> "udp", client |-> 1, newconn |-> FALSE]
+      pad |-> FALSE, unk |-> FALSE, proto |-> "udp", name |-> "own", client |-> 1, newconn |-> FALSE]
 
 T(r) == [r EXCEPT !.proto = "tcp"]
 C2(r) == [r EXCEPT !.client = 2]
